@@ -263,7 +263,7 @@ pub fn run_c03(cx: &Cx) -> PropResult {
         let nt = crate::props::derived::batch().tuple_histories.len();
         for t in (shard..nt).step_by(cx.shards) {
             let strat = tuple_evo_strategy(t);
-            if drive(crate::run::tag_seed(derive_seed(cx.seed, cx.prop, t as u64, 8), 100 + t as u64), &strat, per_compiled, acc, &|c: &TupleEvoCase| to_json(&json!({"Tuple": c})), &mut |c, a, r| check_c03_tuple(c, a, r)) {
+            if drive(crate::run::tag_seed(derive_seed(cx.seed, cx.prop, t as u64, 8), 1000 + t as u64), &strat, per_compiled, acc, &|c: &TupleEvoCase| to_json(&json!({"Tuple": c})), &mut |c, a, r| check_c03_tuple(c, a, r)) {
                 return;
             }
             acc.bump("compiled_tuple_variant_histories", 1);
